@@ -271,6 +271,43 @@ def batch_distribute(ctx):
                    note="every policy per expression (<=64) — exhaustive per expression")
 
 
+def batch_wrapping_operands(ctx):
+    """operands whose arithmetic is not exact ring arithmetic: unsigned / narrow integers (differences and sums wrap
+    around BEFORE the einsum) and Booleans (`+` is a logical or): the distributive law is an identity of exact
+    arithmetic only"""
+    import pytato as pt
+    from pytato.transform.einsum_distributive_law import DoDistribute, apply_distributive_property_to_einsums
+    A = np.array([[1.0, 2.0, 0.5], [0.0, -1.0, 3.0]])
+    X1 = {"uint8": np.array([3, 200, 7], dtype=np.uint8), "int8": np.array([100, -100, 5], dtype=np.int8),
+          "bool": np.array([True, False, True])}
+    X2 = {"uint8": np.array([10, 100, 9], dtype=np.uint8), "int8": np.array([100, 100, -5], dtype=np.int8),
+          "bool": np.array([True, True, False])}
+    a = pt.make_placeholder("A", A.shape, np.float64)
+    cases = dis = 0
+    for dt in X1:
+        x1, x2 = pt.make_placeholder("x1", (3,), X1[dt].dtype), pt.make_placeholder("x2", (3,), X2[dt].dtype)
+        forms = {"sub": (lambda p, q: p - q), "add": (lambda p, q: p + q), "smul": (lambda p, q: 3 * p + q)}
+        if dt == "bool":
+            forms = {"add": forms["add"]}
+        for fn, f in forms.items():
+            cases += 1
+            expr = a @ f(x1, x2)
+            inp = {"A": A, "x1": X1[dt], "x2": X2[dt]}
+            try:
+                ref = evaluate(expr, inp)
+                new = apply_distributive_property_to_einsums(expr, lambda e: DoDistribute(ioperand=1))
+                got = evaluate(new, inp)
+            except Exception as e:   # noqa: BLE001  (an explicit refusal is fine)
+                continue
+            if not _same(got, ref):
+                dis += 1
+                ctx.violation("distribute:value-changed:wrapping-integer-or-boolean-operands",
+                              f"A @ ({fn} of {dt} vectors): the {dt} operation wraps around / is a logical or before the "
+                              f"einsum; after distribution the result is {_tolist(got)} instead of {_tolist(ref)}",
+                              {"dtype": dt, "form": fn})
+    ctx.note_batch("operands-with-wrapping-or-boolean-arithmetic", cases, dis, exhaustive=False)
+
+
 def _which_op(eins, pol):
     from pytato.array import IndexLambda
     out = []
@@ -405,6 +442,7 @@ def run(ctx: common.Ctx):
     else:
         ctx.coverage["lean"] = "C06 theorem file not yet present in this revision"
     batch_distribute(ctx)
+    batch_wrapping_operands(ctx)
     batch_no_broadcasts(ctx)
     ctx.broken = sorted(set(ctx.broken))[:50]
 
